@@ -539,9 +539,10 @@ class DocumentationAggregator(CMakeListener):
                 break
 
         cleaned_lines = []
-        for line in lines:
-            # Remove global indent from left side
-            cleaned_line = line[num_spaces:]
+        for index, line in enumerate(lines):
+            # Remove global indent from left side. The first line begins at the comment's
+            # "#", the indentation in front of it is not part of the doccomment token
+            cleaned_line = line if index == 0 else line[num_spaces:]
             # Remove all hash marks and brackets from the left side only
             cleaned_line = cleaned_line.lstrip("#[]")
             # String is not empty and first character is a space
